@@ -234,6 +234,96 @@ func (f *fctx) heap(key string, elem *Sort) Term {
 	return t
 }
 
+// applyLemma assumes ground instances of a lemma (proved separately as its own script): the lemma's non-split
+// variables are bound to the argument expressions, its split variables range over their declared values.
+func (f *fctx) applyLemma(ap *ECall, env *Env) error {
+	var lem *Lemma
+	for _, l := range f.vc.cs.Lemmas {
+		if l.Name == ap.Fn {
+			lem = l
+		}
+	}
+	if lem == nil {
+		return fmt.Errorf("contract error: apply: no lemma %s", ap.Fn)
+	}
+	split := map[string]Split{}
+	for _, sp := range lem.Splits {
+		split[sp.Var] = sp
+	}
+	var free []string
+	for _, st := range lem.Stmts {
+		if st.Kind == "var" {
+			if _, isSplit := split[st.Name]; !isSplit {
+				free = append(free, st.Name)
+			}
+		}
+		if st.Kind == "call" {
+			return fmt.Errorf("contract error: apply: lemma %s contains calls", lem.Name)
+		}
+	}
+	if len(free) != len(ap.Args) {
+		return fmt.Errorf("contract error: apply %s: %d arguments for %d variables", lem.Name, len(ap.Args), len(free))
+	}
+	bound := map[string]Term{}
+	for i, n := range free {
+		t, e := ToSMT(ap.Args[i], env)
+		if e != nil {
+			return fmt.Errorf("contract error: apply %s: %v", lem.Name, e)
+		}
+		bound[n] = t
+	}
+	// enumerate the split values
+	var names []string
+	for _, sp := range lem.Splits {
+		names = append(names, sp.Var)
+	}
+	var rec func(i int, vals map[string]Term) error
+	rec = func(i int, vals map[string]Term) error {
+		if i == len(names) {
+			vars := map[string]Term{}
+			for k, v := range bound {
+				vars[k] = v
+			}
+			for k, v := range vals {
+				vars[k] = v
+			}
+			// the instance is stated without revealing opaque definitions: it is a fact about the symbols
+			e := &Env{Vars: vars, Defs: f.vc.cs.Defs, Reveal: f.revealSet()}
+			var hyps []Term
+			for _, st := range lem.Stmts {
+				switch st.Kind {
+				case "assume":
+					t, err := ToSMT(st.Clause.Expr, e)
+					if err != nil {
+						return fmt.Errorf("contract error: apply %s: %v", lem.Name, err)
+					}
+					hyps = append(hyps, wantBoolE(t))
+				case "assert":
+					t, err := ToSMT(st.Clause.Expr, e)
+					if err != nil {
+						return fmt.Errorf("contract error: apply %s: %v", lem.Name, err)
+					}
+					f.assume(Implies(And(hyps...), wantBoolE(t)))
+				}
+			}
+			return nil
+		}
+		sp := split[names[i]]
+		if sp.HiVar != "" {
+			return fmt.Errorf("contract error: apply %s: dependent split ranges are not supported", lem.Name)
+		}
+		for v := sp.Lo; v <= sp.Hi; v++ {
+			vals[names[i]] = IntLit(int64(v))
+			if err := rec(i+1, vals); err != nil {
+				return err
+			}
+		}
+		return nil
+	}
+	f.sc.Trusted["lemma "+lem.Name+" (proved as its own script under the same property) is used by instantiation"] = true
+	return rec(0, map[string]Term{})
+}
+
 // ghostSort: the nested array sort of a ghost relation (result Bool).
 func (vc *VC) ghostSort(name string) (*Sort, []*Sort, bool) {
 	if vc.cs == nil {
@@ -573,6 +663,11 @@ func (vc *VC) TranslateFunction(fn *ssa.Function, con *Contract) (sc *Script, er
 			return nil, fmt.Errorf("contract error: %s:%d: %v", c.File, c.Line, e)
 		}
 		f.assume(wantBoolE(t))
+	}
+	for _, ap := range con.Applies {
+		if e := f.applyLemma(ap, env); e != nil {
+			return nil, e
+		}
 	}
 	if con.Valid != nil {
 		t, e := ToSMT(con.Valid.Expr, env)
